@@ -81,7 +81,9 @@ func roleOf(l *Loaded, v ssa.Value, recv string, d int) string {
 		return "local:" + x.Comment
 	case *ssa.Call:
 		name := "call"
-		if f := staticCallee(&x.Call); f != nil {
+		if b, ok := x.Call.Value.(*ssa.Builtin); ok {
+			name = b.Name()
+		} else if f := staticCallee(&x.Call); f != nil {
 			name = f.Name()
 			if f.Pkg != nil && !l.inModule(f) {
 				name = f.Pkg.Pkg.Name() + "." + name
